@@ -34,6 +34,7 @@ class StreamWrapper(FnCase):
         self.eng = eng
         q, hs, obs = build_plain(eng, p, self.module, self.factory, self.fargs)
         self.ctor_calls = list(q.calls)
+        self.shared_calls = q.ghost.get('calls_before_subscribe', 0)
         self.hs = hs; self.obs = obs
         q.trace = T0; q.calls = []; q.pc = []
         self.path = q
@@ -44,7 +45,9 @@ class StreamWrapper(FnCase):
         return BoolVal(isinstance(q.exc, ExcV) and q.exc.cls == 'LibError' and getattr(self, 'propagates', False))
 
     def ensures(self, q, ret):
-        out = [('constructed_as_documented', BoolVal(bool(self.ctor_check(self))))]
+        out = [('constructed_as_documented', BoolVal(bool(self.ctor_check(self)))),
+               # streaming state (compressor, incremental codec) belongs to one subscription: a second subscription starts a new stream
+               ('library_object_created_per_subscription', BoolVal(self.shared_calls == 0))]
         out += self.spec(self, q)
         return out
 
